@@ -367,13 +367,62 @@ let () =
       else Viol "negotiator reused after Reset with another configuration differs from a fresh one"
     | _ -> Diff "malformed line")
 
+(* HSC: a valid handshake over a transport cut inside the head.  Monitor (C16): an error, no panic / hang, no 101
+   written.  Model (when the line carries the bytes that arrived): the outcome class -- and for the server the bytes
+   written -- equal those of HsUpgrader.upgrader / HsDialer.dialer_upgrade on the same bytes and tail, and the bytes
+   have an incomplete head in the sense of HsCut.head_complete (so C16_upgrader_cut / C16_dialer_cut speak about this
+   very case; C16_*_cut_of_valid_* predict io:eof / io:fail and nothing written). *)
+let hsc_monitor who cls iserr wrote101 =
+  if cls = "panic" || cls = "hang" then Some ("handshake over a cut transport: " ^ cls)
+  else if iserr <> "1" then Some "handshake over a cut transport reported success"
+  else if String.length who >= 2 && String.sub who 0 2 = "up" && wrote101 = "1"
+  then Some "a 101 response was written although the request was cut"
+  else None
+
 let () =
   register "HSC" (fun i o -> match i, o with
     | [who; _; _; _], [cls; iserr; wrote101] ->
-      if cls = "panic" || cls = "hang" then Viol ("handshake over a cut transport: " ^ cls)
-      else if iserr <> "1" then Viol "handshake over a cut transport reported success"
-      else if who = "up" && wrote101 = "1" then Viol "a 101 response was written although the request was cut"
-      else Pass true
+      (match hsc_monitor who cls iserr wrote101 with Some m -> Viol m | None -> Pass true)
+    | [who; _; _; tail; stream; key], [cls; iserr; wrote101; fine; out] ->
+      (match hsc_monitor who cls iserr wrote101 with
+       | Some m -> Viol m
+       | None ->
+         let open K_c09 in
+         let stream = unhxi stream and tail = tail_of tail in
+         let r = reader_of [stream] tail in
+         let chat = bytes_of_string "chat" in
+         if HsCut.head_complete stream then Diff "the generated cut does not fall inside the head (HsCut.head_complete)"
+         else if String.sub who 0 2 = "up" then begin
+           let cfg = { HsUpgrader.uc_header = []; uc_protocol = Some (fun t -> t = chat); uc_extension = None;
+                       uc_negotiate = None; uc_on_request = (fun _ -> None); uc_on_host = (fun _ -> None);
+                       uc_on_header = (fun _ _ -> None); uc_on_before_upgrade = None } in
+           let m = HsUpgrader.upgrader (fun _ -> []) cfg default_server_read_buffer r in
+           let mcls = class_of_uerr m.HsUpgrader.u_err in
+           if mcls <> fine then Diff ("model outcome " ^ mcls ^ ", Go " ^ fine)
+           else if String.length mcls >= 3 && String.sub mcls 0 3 = "io:" && m.HsUpgrader.u_out <> unhxi out
+           then Diff "model writes nothing, Go wrote bytes"
+           else Pass true
+         end else begin
+           let cfg = { HsDialer.dc_protocols = [chat]; dc_extensions = []; dc_header = []; dc_host = [];
+                       dc_on_header = (fun _ _ -> false) } in
+           let m = HsDialer.dialer_upgrade cfg (bytes_of_string "example.com") (bytes_of_string "/chat")
+                     (unhxi key) K_c10.default_client_read_buffer r in
+           let mcls = K_c10.derr_class m.HsDialer.d_err in
+           if mcls <> fine then Diff ("model outcome " ^ mcls ^ ", Go " ^ fine) else Pass true
+         end)
+    | _ -> Diff "malformed line")
+
+(* HSW: the destination fails while the handshake response / request is written (observed only: the handshake
+   models have no failing destination).  An error must come back whenever a write was refused. *)
+let () =
+  register "HSW" (fun i o -> match i, o with
+    | [who; _; _], [cls; iserr; calls; refused] ->
+      if cls = "panic" || cls = "hang" then Viol ("handshake over a failing destination: " ^ cls)
+      else if refused = "1" && iserr <> "1" then
+        Viol (if who = "di" then "Dialer.Upgrade reported success although writing the request failed"
+              else "Upgrader.Upgrade reported success although writing the response failed")
+      else if int_of_string calls = 0 then Diff "the handshake never wrote to the destination"
+      else Pass (refused = "1")
     | _ -> Diff "malformed line")
 
 let () =
@@ -383,6 +432,7 @@ let () =
       else if status <> "ok" && status <> "readerr" then Viol ("panic in " ^ name ^ ": " ^ status)
       else if intact <> "1" then
         Viol (if name = "readmessage" then "a control message payload returned by ReadMessage changed after pooled buffers were recycled"
+              else if name = "readmessage-recycle" then "a message payload returned by ReadMessage changed when the caller recycled its []Message slice for later calls"
               else "the caller's slice was modified by a write API documented as non-mutating")
       else if aliased = "1" then Viol "a client-side write handed the caller's own memory to the destination"
       else Pass true
